@@ -121,6 +121,17 @@ fn run_frames(emu: &mut Emu, out: &mut Out, n: usize, log_every: usize) {
                 skipped = 0;
             }
             out.ev(json!({"ev":"frame","canvas":canvas(emu)}));
+        } else if log_every > 1 {
+            // the long watch: every frame in between is sampled at 64 pixels, so that each single frame takes part in
+            // the judgement of the FLASH rhythm ("swapping ink and paper every 16 frames")
+            let px = canvas(emu);
+            let samples: Vec<Value> = (0..64usize)
+                .map(|k| {
+                    let (x, y) = ((k * 37 + f * 11) % 256, (k * 53 + f * 7) % 192);
+                    json!([x, y, px[y * 256 + x]])
+                })
+                .collect();
+            out.ev(json!({"ev":"fframe","samples":samples}));
         } else {
             skipped += 1;
         }
